@@ -12,11 +12,14 @@ import (
 	"os"
 	"path/filepath"
 	"regexp"
+	"runtime"
 	"sort"
 	"strconv"
+	"strings"
 	"sync"
 	"sync/atomic"
 	"testing"
+	"time"
 
 	"github.com/Breeze0806/go/log"
 	"github.com/Breeze0806/gobinlog"
@@ -78,8 +81,48 @@ func pick(q, th int) int {
 // hands the connection to the driver (a cancellation exactly between the two).
 var dialHook atomic.Value // func()
 
+// perturbLogger is installed through the exported SetLogger.  It discards every
+// message; when a scenario arms it, it additionally delays the calling goroutine
+// at the library's log calls (a legitimate schedule perturbation: any real logger
+// takes time), which widens otherwise instruction-wide race windows.
+type perturbLogger struct{}
+
+var (
+	perturbWho    int32 // 0 off, 1 reader goroutine, 2 Stream goroutine, 3 both
+	perturbMicros int32
+	perturbLevel  int32 // 1 Errorf/Print only, 2 + Infof, 3 + Debugf
+)
+
+func perturb(level int32) {
+	who := atomic.LoadInt32(&perturbWho)
+	if who == 0 || level > atomic.LoadInt32(&perturbLevel) {
+		return
+	}
+	var buf [2048]byte
+	st := string(buf[:runtime.Stack(buf[:], false)])
+	reader := strings.Contains(st, "startDumpFromBinlogPosition.func1") || strings.Contains(st, "startWatcher")
+	if (reader && who&1 != 0) || (!reader && who&2 != 0) {
+		time.Sleep(time.Duration(atomic.LoadInt32(&perturbMicros)) * time.Microsecond)
+	}
+}
+
+func (perturbLogger) Errorf(string, ...interface{}) { perturb(1) }
+func (perturbLogger) Print(...interface{})          { perturb(1) }
+func (perturbLogger) Printf(string, ...interface{}) { perturb(1) }
+func (perturbLogger) Infof(string, ...interface{})  { perturb(2) }
+func (perturbLogger) Debugf(string, ...interface{}) { perturb(3) }
+
+func armPerturb(who, micros, level int) func() {
+	atomic.StoreInt32(&perturbMicros, int32(micros))
+	atomic.StoreInt32(&perturbLevel, int32(level))
+	atomic.StoreInt32(&perturbWho, int32(who))
+	return func() { atomic.StoreInt32(&perturbWho, 0) }
+}
+
 func TestMain(m *testing.M) {
-	gobinlog.SetLogger(log.NewDefaultLogger(io.Discard, log.ErrorLevel, ""))
+	_ = io.Discard
+	_ = log.ErrorLevel
+	gobinlog.SetLogger(perturbLogger{})
 	mysql.RegisterDialContext("verifdial", func(ctx context.Context, addr string) (net.Conn, error) {
 		var d net.Dialer
 		c, err := d.DialContext(ctx, "tcp", addr)
